@@ -64,11 +64,11 @@ for _rnd, _tier in ((0, "quick"), (1, "thorough")):
       native={"repo": _LIBSRC}, assumptions=[NOFAIL, "rand() after srand(s) is a function of s only (uninterpreted R) with a non-negative result (the one __CPROVER_assume in the rand stub; C standard: 0..RAND_MAX)"], min_obligations=20)
 
 # ---- (2a) the list keeps up with notes that become used WHILE it is being written (a footnote referenced inside a footnote)
-U("anchor_footnote_list_growing", ["C10"], "h_footnote_list", ["C10/anchors.c"], ["html.c", "writer.c", "stack.c"], plain=True, lib=("lib/ds_sink.c",), kind="bounded",
-  drop_bodies=["mmd_export_token_tree_html"],
-  defines=["-DRANDOM=0", "-DNNOTES=1", "-DGROW=2", "-DSINK_CAP=160", "-DSINK_NUM_GHOST"], bounds={"used footnotes at entry=": 1, "notes that become used while the list is written<=": 2, "unwind": 40},
-  cbmc_flags=["--unwind", "40", "--unwinding-assertions"], timeout=400, cost=35,
-  functions=["mmd_export_footnote_list_html"], callees={"mmd_export_token_tree_html": "contract stub: prints nothing, may push one more used note (what the PAIR_BRACKET_FOOTNOTE arm does)", "pad/stack_*": "body", "DString": "ghost sink"},
+U("anchor_footnote_list_growing", ["C10"], "h_footnote_list", ["C10/anchors.c"], ["html.c", "writer.c", "stack.c"], plain=True, lib=(), kind="bounded",
+  drop_bodies=["mmd_export_token_tree_html", "stack_push"],
+  defines=["-DRANDOM=0", "-DNNOTES=1", "-DGROW=2"], bounds={"used footnotes at entry=": 1, "notes that become used while the list is written<=": 2, "unwind": 6},
+  cbmc_flags=["--unwind", "5", "--unwinding-assertions", "--object-bits", "12"], timeout=400, cost=35,
+  functions=["mmd_export_footnote_list_html"], callees={"mmd_export_token_tree_html": "contract stub: prints nothing, may push one more used note (what the PAIR_BRACKET_FOOTNOTE arm does)", "pad/stack_*": "body", "DString": "no-op contract stubs; the entry id passed to d_string_append_printf is recorded"},
   native=None, assumptions=[NOFAIL], min_obligations=20)
 
 # ---- (2b) the call site of a footnote uses the same anchor function (PAIR_BRACKET_FOOTNOTE arm of the real writer switch)
